@@ -44,7 +44,11 @@ def gen_cases(seed, n, threads, max_assign):
         quads = G.gen_dataset(rng, 16)
         g = G.Gen(rng, FEATS[i % len(FEATS)], quads)
         depth = rng.choice([1, 2, 2])
-        q = g.select(depth)
+        if i % 3 == 1:
+            k = (i // 3) % (len(G.Gen.OPS) ** 2)
+            q = g.nested(G.Gen.OPS[k // len(G.Gen.OPS)], G.Gen.OPS[k % len(G.Gen.OPS)])
+        else:
+            q = g.select(depth)
         # more triple patterns per BGP than the C01 generator uses: joins are the subject here
         if rng.random() < 0.5:
             g.ctx = ""
